@@ -60,15 +60,17 @@ func main() {
 	}
 	limit := *wd
 	if limit == 0 {
-		limit = 900
+		limit = 1450
 		if *tier == "thorough" {
-			limit = 3600
+			limit = 5300
 		}
 	}
 	go func() {
 		time.Sleep(time.Duration(limit) * time.Second)
-		fmt.Printf("INCONCLUSIVE property=%s: wall-clock watchdog (%ds) fired; no verdict\n", *prop, limit)
-		os.Exit(core.ExitInconclusive)
+		// a fired watchdog is never a violation by itself; violations already witnessed are
+		// still reported (with their replay files), everything else is inconclusive
+		ctx.Inconclusive(fmt.Sprintf("wall-clock watchdog (%ds) fired before the workload completed", limit))
+		os.Exit(ctx.Finish())
 	}()
 	m(ctx)
 	os.Exit(ctx.Finish())
